@@ -1,5 +1,5 @@
 INIT Init
 NEXT Next
-CONSTANTS NE = 4 NS = 3 MaxLen = 3
+CONSTANTS NE = 6 NS = 3 MaxLen = 3
 INVARIANT Emit
 CHECK_DEADLOCK FALSE
